@@ -77,7 +77,7 @@ class C10(PropBase):
 
     def random_cases(self, rnd, n):
         for _ in range(n):
-            c = state_case(rnd, removal=True, max_calls=9, family=rnd.choice(['int', 'int', 'str', 'ustr']), isolated=False)
+            c = state_case(rnd, removal=True, max_calls=9, family=rnd.choice(['int', 'int', 'str', 'ustr', 'lb']), isolated=False)
             c['fmt'] = rnd.choice(FMTS)
             c['log'] = wellformed_log(rnd, c['directed'])
             yield c
